@@ -227,6 +227,28 @@ def gen_case(rng, thorough):
             kind += '+shared'
         tf.append([t, fid])
         kinds[t] = kind
+        # a SECOND Frame object over the very same ndarray under another topic (a filter that republishes the picture it received
+        # with other data): one of the two has an encoding, the other has not - each goes out as what IT is
+        base_kind = kind.split('-components')[0]
+        if base_kind in ('jpg-decoded', 'ro+jpg') and '+shared' not in kind and rng.random() < 0.35:
+            spare = [x for x in TOPICS if x not in topics and x not in [a for a, _ in tf]]
+            arr = None
+            if base_kind == 'jpg-decoded' and res and res[0] == 'a':
+                arr = res[1]
+            elif base_kind == 'ro+jpg':
+                arr = next((o[1] for o in fops if o[0] == 'frame_arr'), None)
+            if spare and arr is not None and arr < len(sim.arrays):
+                a2 = sim.arrays[arr]
+                own = next((o for o in fops if o[0] in ('from_jpg', 'frame_arr')), None)
+                fmt2 = None if a2.ndim == 2 else (own[4] if own[0] == 'from_jpg' else own[3]) or 'BGR'
+                op2 = ['frame_arr', arr, ['j', {'twin': 1}], fmt2]
+                r2 = sim.step(op2)
+                ops.append(op2)
+                if r2 and r2[0] == 'f':
+                    t2 = spare[0]
+                    pos = rng.choice([len(tf) - 1, len(tf)])      # before or after its twin in the frame dict
+                    tf.insert(pos, [t2, r2[1]])
+                    kinds[t2] = 'twin-of-' + base_kind
     return dict(ops=ops, topics=tf, kinds=kinds, outs_jpg=rng.choice([None, True, False]))
 
 def run_case(run, case, cases):
